@@ -86,6 +86,11 @@ def step(rig: PairRig, e: t.Dict[str, t.Any]) -> t.List[t.Tuple[str, str, str]]:
             for prop in ("C09" if side == "c" else "C10", "C11"):
                 diffs.append((prop, f"queued-message/{op}/{call['k']}", f"{op} {call['k']} id={call['id']} queued {[(proj.kind_of(v), v.message_id) for v in vals]} (the message the call sends is not what reaches the stream)"))
             return diffs
+        want_flt = obs.get("intent", {}).get("filter")
+        if want_flt is not None and hasattr(vals[0], "filter") and proj.filter_to_abstract(vals[0].filter) != want_flt:
+            for prop in ("C11", "C03"):
+                diffs.append((prop, f"queued-value/{op}/filter", f"{op} searchReq: the filter in the message queued for the peer is not the filter the call was given ({str(want_flt)[:120]})"))
+            return diffs
         want_code = obs.get("intent", {}).get("code")
         if want_code is not None and hasattr(vals[0], "result"):
             got_code = int(getattr(vals[0].result.result_code, "value", vals[0].result.result_code))
